@@ -5,6 +5,7 @@ from __future__ import annotations
 import fnmatch
 import hashlib
 import json
+import math
 import multiprocessing as mp
 import os
 import sys
@@ -100,7 +101,8 @@ def run_concrete(case: Case, values):
             try:
                 case.fn(c)
             except Exception as e:  # noqa: BLE001
-                exc = e
+                if type(e).__name__ != "NotElementwise":
+                    exc = e
     finally:
         cx.CUR = old
         torch.set_default_dtype(old_dtype)
@@ -169,7 +171,12 @@ def _run_case(case: Case):
         with facades.patched():
             def fn(c):
                 c.env.update(case.env)
-                return case.fn(c)
+                try:
+                    return case.fn(c)
+                except Exception as e:  # noqa: BLE001
+                    if type(e).__name__ == "NotElementwise":
+                        return None  # the contract stub already registered the violated call-site precondition
+                    raise
 
             for c, outcome in cx.explore(fn, max_paths=case.max_paths, xmode=case.xmode,
                                          check_side=case.check_side, decide_timeout=case.decide_timeout):
@@ -309,6 +316,31 @@ def _handle_sat(case, hyps, g, r):
         last = (vals, rp)
         if rp["reproduced"]:
             return {"status": "violated", "model": vals, "replay": rp}
+    # Last resort before calling the solver's counterexample spurious (its values for the abstracted special functions
+    # need not be realisable): look for a real witness near the solver's models by random perturbation, keeping signs.
+    # Whatever reproduces on the real code is a genuine violation of the same obligation.
+    import random
+
+    rng = random.Random(12345)
+    t_end = time.time() + 20.0
+    tries = 0
+    base_models = models[:3]
+    while time.time() < t_end and tries < 400:
+        tries += 1
+        base = base_models[tries % len(base_models)]
+        cand = {}
+        for k, v in base.items():
+            if isinstance(v, float):
+                mag = abs(v) if abs(v) > 1e-6 else 0.5
+                x = mag * math.exp(rng.gauss(0.0, 0.6))
+                sign = -1.0 if v < 0 else (1.0 if v > 0 else rng.choice((-1.0, 1.0)))
+                cand[k] = sign * x
+            else:
+                cand[k] = v
+        rp = replay_goal(case, cand, g.name)
+        if rp["reproduced"]:
+            rp["found_by"] = "perturbation of the solver's model (%d tries)" % tries
+            return {"status": "violated", "model": cand, "replay": rp}
     return {"status": "spurious", "model": last[0], "replay": last[1]}
 
 
